@@ -43,3 +43,18 @@ def _(eng, ci, a, dt):
 
 def install(eng):
     eng.crate_intercepts = ICP
+
+
+@icp('dates::date_to_serial_number', 'fn date_to_serial_number')
+def _(eng, ci, a, dt):
+    """calendar arithmetic lives in chrono: validity and serial are uninterpreted functions of (day, month, year)"""
+    import z3
+    from . import ops
+    from .mcore import mkstr
+    d, m, y = (ops.to_bv(x, 32) for x in a[:3])
+    valid = eng.uf('date_valid', z3.BitVecSort(32), z3.BitVecSort(32), z3.BitVecSort(32), z3.BoolSort())(d, m, y)
+    serial = eng.uf('date_serial', z3.BitVecSort(32), z3.BitVecSort(32), z3.BitVecSort(32), z3.BitVecSort(32))(d, m, y)
+    eng.assumptions.add('intercept dates::date_to_serial_number: uninterpreted (chrono)')
+    if eng.truth(valid):
+        return ok(serial)
+    return err(mkstr('Out of range parameters for date'))
